@@ -39,7 +39,10 @@ impl Matcher<HL> for EnvM {
   }
   fn potential_kinds(&self) -> Option<BitSet> {
     let mask = self.kinds?;
+    // fixed capacity first: growth under a symbolic guard = heap object of symbolic size
     let mut set = BitSet::new();
+    set.insert(15);
+    set.remove(15);
     let mut k = 1;
     while k <= 8 {
       if mask & (1 << k) != 0 {
@@ -296,5 +299,91 @@ mod proofs {
     std::mem::forget(all);
     std::mem::forget(any);
     std::mem::forget(g);
+  }
+
+  /// the kind-set algebra alone (no matching): the set cached by `All::new` / `Any::new` is
+  /// exactly the intersection (children without a set are skipped) / the union (a child
+  /// without a set makes the result `None`) of the children's advertised sets -- so the
+  /// kind gate of `FindAllNodes` / `CombinedScan` never drops a node every (some) child
+  /// would accept
+  fn kinds_only(all: bool) {
+    // which children advertise a set is enumerated concretely (a symbolic choice makes the
+    // accumulator point into one of several heap objects: out of memory in array
+    // post-processing); the masks are symbolic
+    let mut pat = 0;
+    while pat < 8 {
+      kinds_case(all, [pat & 1 != 0, pat & 2 != 0, pat & 4 != 0]);
+      pat += 1;
+    }
+  }
+
+  fn kinds_case(all: bool, present: [bool; 3]) {
+    let mut kids = [EnvM { verdict: true, write: None, kinds: None }; 3];
+    let mut i = 0;
+    while i < 3 {
+      if present[i] {
+        kids[i].kinds = Some(kani::any::<u16>() & 0x1fe);
+      }
+      i += 1;
+    }
+    let mut inter: Option<u16> = None;
+    let mut uni: Option<u16> = Some(0);
+    let mut i = 0;
+    while i < 3 {
+      match kids[i].kinds {
+        Some(mk) => {
+          inter = Some(match inter {
+            Some(x) => x & mk,
+            None => mk,
+          });
+          uni = uni.map(|u| u | mk);
+        }
+        None => uni = None,
+      }
+      i += 1;
+    }
+    let got = if all {
+      let m = All::new(kids);
+      let r = m.potential_kinds();
+      std::mem::forget(m);
+      r
+    } else {
+      let m = Any::new(kids);
+      let r = m.potential_kinds();
+      std::mem::forget(m);
+      r
+    };
+    let want = if all { inter } else { uni };
+    let got_mask = match &got {
+      None => None,
+      Some(s) => {
+        let mut m = 0u16;
+        let mut k = 1;
+        while k <= 8 {
+          if s.contains(k) {
+            m |= 1 << k;
+          }
+          k += 1;
+        }
+        Some(m)
+      }
+    };
+    if present[0] && present[1] && present[2] {
+      kani::cover!(want.is_some() && want != Some(0));
+    }
+    assert!(got_mask == want, "cached kind set == intersection / union of the children's sets");
+    std::mem::forget(got);
+  }
+
+  #[kani::proof]
+  #[kani::unwind(10)]
+  fn c01k_kinds_all() {
+    kinds_only(true);
+  }
+
+  #[kani::proof]
+  #[kani::unwind(10)]
+  fn c01k_kinds_any() {
+    kinds_only(false);
   }
 }
